@@ -643,8 +643,10 @@ def run(rep, tier):
     if any(v is None for v in fl.values()):
         raise driver.AnalysisBroken("TP_MSG_F_* not foldable")
     rep.floor("sends whose status is discarded", c11_audit.discarded_send_rule(rep, [u, um], fl), 2)
-    st2 = tp.probe(tp.TP_C, {n_: "TP_THREAD_STATE_" + n_ for n_ in ("STARTING", "RUNNING")}, "probe:tpstate2")
-    rep.floor("slot state transitions", c11_audit.slot_state_rule(rep, u, st2), 2)
+    st2 = tp.probe(tp.TP_C, {n_: "TP_THREAD_STATE_" + n_ for n_ in ("STARTING", "RUNNING", "STOP")}, "probe:tpstate3")
+    rep.floor("slot state transitions", c11_audit.slot_state_rule(rep, u, st2), 3)
+    c11_audit.shutdown_done_rule(rep, u)
+    c11_audit.pvt_drain_rule(rep, us)
     rep.floor("descriptor sentinel tests", c11_audit.fd_sentinel_rule(rep, u), 4)
     race(rep, u)
     return driver.finish(
